@@ -27,6 +27,10 @@ class Res:  # the resource class the harness caches
     pass
 
 
+class Res2:  # a second kind: resources of different kinds may carry the same name
+    pass
+
+
 class Prepared:
     def __init__(self, name, seen, deps):
         self.name, self.seen, self.deps = name, seen, deps   # deps: what this (re)preparation declared, in order
@@ -51,13 +55,16 @@ def rname(i):
 class World:
     """one fresh instance of the real cache + registry with recording preparers"""
 
-    def __init__(self, n):
+    def __init__(self, n, twin=False):
         from koreo import cache, registry
         import koreo_util
 
         self.cache, self.registry = cache, registry
         koreo_util.reset()
         self.n = n
+        # twin: resources 2k and 2k+1 are of DIFFERENT kinds and share the name r<k> (nothing in the cache or the
+        # registry may be keyed by the name alone)
+        self.twin = twin
         self.G = {i: 0 for i in range(n)}          # ghost generations
         self.prepares = []                          # (resource, what it saw)
         self.offered = {}                           # resource -> tag of the spec offered last
@@ -71,11 +78,23 @@ class World:
     def close(self):
         self.cache.time, self.registry.time = self._saved
 
+    def kind(self, i):
+        return Res2 if (self.twin and i % 2) else Res
+
+    def name(self, i):
+        return rname(i // 2) if self.twin else rname(i)
+
     def res(self, i):
-        return self.registry.Resource(resource_type=Res, name=rname(i))
+        return self.registry.Resource(resource_type=self.kind(i), name=self.name(i))
+
+    def sysdata(self, i):
+        return self.cache.get_resource_system_data_from_cache(self.kind(i), self.name(i))
 
     async def preparer(self, cache_key, spec):
-        i = int(cache_key[1:])
+        i = spec.get("i")
+        if not isinstance(i, int) or self.name(i) != cache_key:
+            self.spec_problems.append(f"preparation under key {cache_key!r} was handed the spec {spec!r}")
+            i = int(cache_key[1:])
         # a preparer may consume its spec (real prepare_* functions pop keys); the cache must hand every
         # (re)preparation the spec as it was offered, so this one scribbles on what it is given
         if "__scribble__" in spec or spec.get("deps") is None or spec.get("tag") != self.offered.get(i):
@@ -85,58 +104,83 @@ class World:
         # like the real FunctionTest preparer, this one looks other resources up in the cache and declares
         # some dependencies only while they are there: (c, d) = "follow d if c is cached right now"
         for c, d in (spec.get("cond") or []):
-            if self.cache.get_resource_system_data_from_cache(Res, rname(c)) is not None:
+            if self.sysdata(c) is not None:
                 deps.append(d)
+        # ... and, like every real preparer, it can FAIL: it then returns a non-Ok outcome (no subscriptions),
+        # which the cache keeps under the offered version like a result
+        failed = any(self.sysdata(c) is not None for c in (spec.get("fail") or []))
         spec["__scribble__"] = True
         spec["deps"] = None
         spec["cond"] = None
+        spec["fail"] = None
+        if failed:
+            from koreo.result import PermFail
+            self.G[i] += 1
+            self.prepares.append((i, {}))
+            return PermFail(message=f"preparation of r{i} failed", location=f"r{i}")
         seen = {d: self.G[d] for d in deps}
         self.G[i] += 1
         self.prepares.append((i, dict(seen)))
         return (Prepared(cache_key, seen, list(deps)), [self.res(d) for d in deps])
 
-    async def offer(self, i, v, deps, cond=()):
-        sd = self.cache.get_resource_system_data_from_cache(Res, rname(i))
+    async def offer(self, i, v, deps, cond=(), fail=()):
+        sd = self.sysdata(i)
         cond = [list(p) for p in cond]
-        tag = f"r{i}@v{v}:{sorted(deps)}:{cond}"
+        fail = list(fail)
+        tag = f"r{i}@v{v}:{sorted(deps)}:{cond}:{fail}"
         if sd is None or sd.resource_version != f"v{v}":
             self.offered[i] = tag            # a same-version offer is a cache hit: the earlier spec stays
             self.offered_version[i] = f"v{v}"
         return await self.cache.prepare_and_cache(
-            resource_class=Res, preparer=self.preparer,
-            metadata={"name": rname(i), "resourceVersion": f"v{v}"},
-            spec={"deps": list(deps), "cond": cond, "tag": tag})
+            resource_class=self.kind(i), preparer=self.preparer,
+            metadata={"name": self.name(i), "resourceVersion": f"v{v}"},
+            spec={"i": i, "deps": list(deps), "cond": cond, "fail": fail, "tag": tag})
 
     async def delete(self, i, ver):
-        before = self.cache.get_resource_system_data_from_cache(Res, rname(i))
-        await self.cache.delete_from_cache(Res, rname(i), version=(f"v{ver}" if ver is not None else None))
-        after = self.cache.get_resource_system_data_from_cache(Res, rname(i))
+        before = self.sysdata(i)
+        await self.cache.delete_from_cache(self.kind(i), self.name(i), version=(f"v{ver}" if ver is not None else None))
+        after = self.sysdata(i)
         if before is not None and after is None:
             self.G[i] += 1
 
     def observe(self):
         out = []
         for i in range(self.n):
-            sd = self.cache.get_resource_system_data_from_cache(Res, rname(i))
+            sd = self.sysdata(i)
             if sd is None:
                 version, seen = None, []
             else:
                 version = int(sd.resource_version[1:])
                 r = sd.resource
-                seen = [[d, r.seen.get(d)] for d in r.deps] if isinstance(r, Prepared) else "bad"
-            subs = sorted(int(x.name[1:]) for x in self.registry.get_subscriptions(self.res(i)))
+                seen = [[d, r.seen.get(d)] for d in r.deps] if isinstance(r, Prepared) else \
+                    ([] if self.is_failure(r) else "bad")
+            subs = sorted(self.index_of(x) for x in self.registry.get_subscriptions(self.res(i)))
             out.append({"version": version, "seen": seen, "subs": subs, "gen": self.G[i]})
         return out
+
+    def is_failure(self, r):
+        from koreo.result import PermFail
+        return isinstance(r, PermFail)
+
+    def declared(self, sd):
+        """what the last (re)preparation of a cached entry declared (a failed one declares nothing)"""
+        return list(sd.resource.deps) if isinstance(sd.resource, Prepared) else []
+
+    def index_of(self, resource):
+        k = int(resource.name[1:])
+        if not self.twin:
+            return k
+        return 2 * k + (1 if resource.resource_type is Res2 else 0)
 
     # ---- oracle pieces (implementation only)
     def incoherent(self):
         """list of (r, d, seen, current) for cached entries built from a stale dependency"""
         bad = []
         for i in range(self.n):
-            sd = self.cache.get_resource_system_data_from_cache(Res, rname(i))
+            sd = self.sysdata(i)
             if sd is None:
                 continue
-            for d in sd.resource.deps:
+            for d in self.declared(sd):
                 if sd.resource.seen.get(d) != self.G[d]:
                     bad.append((i, d, sd.resource.seen.get(d), self.G[d]))
         return bad
@@ -146,8 +190,8 @@ class World:
         queues = getattr(self.registry, "_SUBSCRIPTION_QUEUES", {})
         tasks = getattr(self.cache, "_REPREPARE_TASKS", {})
         for i in range(self.n):
-            sd = self.cache.get_resource_system_data_from_cache(Res, rname(i))
-            subs = sorted(int(x.name[1:]) for x in self.registry.get_subscriptions(self.res(i)))
+            sd = self.sysdata(i)
+            subs = sorted(self.index_of(x) for x in self.registry.get_subscriptions(self.res(i)))
             subscribers_of_others = [j for j in range(self.n)
                                      if self.res(i) in self.registry.get_subscribers(self.res(j))]
             if sd is None:
@@ -159,7 +203,7 @@ class World:
                 if t is not None and not t.done():
                     probs.append(f"deleted r{i} still has a live monitor")
             else:
-                deps = sorted(set(sd.resource.deps))     # what the LAST (re)preparation declared
+                deps = sorted(set(self.declared(sd)))     # what the LAST (re)preparation declared
                 if sd.spec.get("tag") != self.offered.get(i) or self.offered_version.get(i) != sd.resource_version:
                     probs.append(f"cached r{i} is {sd.resource_version} / {sd.spec.get('tag')} but the last effective "
                                  f"offer was {self.offered_version.get(i)} / {self.offered.get(i)}")
@@ -185,9 +229,9 @@ async def settle(loop, world, events=None):
     return False
 
 
-def run_history(n, history, probe=True):
+def run_history(n, history, probe=True, twin=False):
     """drive the real code; returns (events for the model, oracle findings, crash)"""
-    world = World(n)
+    world = World(n, twin=twin)
     loop = VirtualLoop()
     events, findings = [], []
     crash = None
@@ -196,9 +240,9 @@ def run_history(n, history, probe=True):
         nextv = max([op["v"] for op in history if op["op"] == "offer"] + [0]) + 1
         for op in history:
             if op["op"] == "offer":
-                await world.offer(op["r"], op["v"], op["deps"], op.get("cond") or [])
+                await world.offer(op["r"], op["v"], op["deps"], op.get("cond") or [], op.get("fail") or [])
                 events.append({"op": "offer", "r": op["r"], "v": op["v"], "deps": op["deps"],
-                               "cond": op.get("cond") or [], "obs": world.observe()})
+                               "cond": op.get("cond") or [], "fail": op.get("fail") or [], "obs": world.observe()})
             else:
                 await world.delete(op["r"], op.get("ver"))
                 events.append({"op": "delete", "r": op["r"], "ver": op.get("ver"), "obs": world.observe()})
@@ -215,10 +259,11 @@ def run_history(n, history, probe=True):
         if probe and not findings:
             # change every resource once more, one at a time, and look again
             for d in range(n):
-                sd = world.cache.get_resource_system_data_from_cache(Res, rname(d))
+                sd = world.sysdata(d)
                 deps = list((sd.spec.get("deps") or [])) if sd else []
                 cond = list((sd.spec.get("cond") or [])) if sd else []
-                await world.offer(d, nextv, deps, cond)
+                fail = list((sd.spec.get("fail") or [])) if sd else []
+                await world.offer(d, nextv, deps, cond, fail)
                 nextv += 1
                 if not await settle(loop, world):
                     findings.append("did not become idle (probe)")
@@ -278,7 +323,10 @@ def gen_history(r, n, length):
                         # template once the function under test is there), sometimes on any other one
                         pool = deps if deps and r.random() < 0.7 else [c for c in range(n) if c != i]
                         cond.append([r.choice(pool), d])
-            hist.append({"op": "offer", "r": i, "v": v, "deps": deps, "cond": cond, "yields": yields})
+            fail = []
+            if r.random() < 0.12:                # a preparation that fails while some other resource is cached
+                fail = [r.choice([c for c in range(n) if c != i] or [i])]
+            hist.append({"op": "offer", "r": i, "v": v, "deps": deps, "cond": cond, "fail": fail, "yields": yields})
         else:
             mode = r.random()
             if mode < 0.7:
@@ -340,12 +388,30 @@ def world_redeclared(events):
     return False
 
 
+def failed_in_background(events):
+    """did a loop turn (a background re-preparation) leave a resource cached under the same version but
+    following nothing, although it followed something before the turn?"""
+    prev = None
+    for e in events:
+        if e["op"] == "turn" and prev is not None:
+            for o0, o1 in zip(prev, e["obs"]):
+                if o0["version"] is not None and o1["version"] == o0["version"] and o0["subs"] and not o1["subs"]:
+                    return True
+        prev = e["obs"]
+    return False
+
+
 def strip_obs(events):
     return [{k: v for k, v in e.items() if k != "obs"} for e in events]
 
 
-def check_history(ck, drv_batch, n, hist):
-    events, findings, crash = run_history(n, hist)
+def check_history(ck, drv_batch, n, hist, twin=False):
+    events, findings, crash = run_history(n, hist, twin=twin)
+    if twin:
+        ck.count("histories-with-same-name-resources-of-two-kinds")
+    ck.count("ops:offer-whose-preparation-can-fail", sum(1 for o in hist if o["op"] == "offer" and o.get("fail")))
+    if any(e["op"] == "turn" for e in events) and failed_in_background(events):
+        ck.count("histories-where-a-background-re-preparation-failed")
     ck.evaluated()
     ck.count(f"len:{len(hist)}")
     ck.count("ops:offer", sum(1 for o in hist if o["op"] == "offer"))
@@ -363,14 +429,14 @@ def check_history(ck, drv_batch, n, hist):
         what = crash or findings[0]
 
         def fails(sub):
-            _, f2, c2 = run_history(n, sub)
+            _, f2, c2 = run_history(n, sub, twin=twin)
             return bool(f2 or c2)
 
         small = ddmin(hist, fails)
-        _, f2, c2 = run_history(n, small)
-        ck.violate({"n": n, "history": small}, c2 or (f2[0] if f2 else what))
+        _, f2, c2 = run_history(n, small, twin=twin)
+        ck.violate({"n": n, "twin": twin, "history": small}, c2 or (f2[0] if f2 else what))
     else:
-        drv_batch.append(({"n": n, "history": hist}, {"n": n, "events": events}))
+        drv_batch.append(({"n": n, "twin": twin, "history": hist}, {"n": n, "events": events}))
     ck.sample({"n": n, "history": hist, "events": len(events)}, limit=3)
 
 
@@ -432,12 +498,12 @@ def run(tier: str) -> int:
 
     for case in corpus_cases():
         ck.count("corpus")
-        check_history(ck, batch, case["n"], case["history"])
+        check_history(ck, batch, case["n"], case["history"], twin=bool(case.get("twin")))
 
     n_hist = 1500 if tier == "quick" else 20000
     for _ in range(n_hist):
         n = r.choice([3, 3, 4, 5])
-        check_history(ck, batch, n, gen_history(r, n, r.randint(2, 12)))
+        check_history(ck, batch, n, gen_history(r, n, r.randint(2, 12)), twin=r.random() < 0.3)
         if len(batch) >= 200:
             flush(ck, drv, batch)
     flush(ck, drv, batch)
@@ -469,7 +535,7 @@ def run(tier: str) -> int:
         r2 = rng("c16-widen")
         for _ in range(6000):
             n = r2.choice([3, 4, 5])
-            check_history(ck2, [], n, gen_history(r2, n, r2.randint(2, 14)))
+            check_history(ck2, [], n, gen_history(r2, n, r2.randint(2, 14)), twin=r2.random() < 0.3)
             if ck2.violations:
                 return
 
@@ -487,7 +553,7 @@ def replay(path: str) -> int:
     rc = 0
     for v in data.get("violations", []):
         case = v["case"]
-        _, findings, crash = run_history(case["n"], case["history"])
+        _, findings, crash = run_history(case["n"], case["history"], twin=bool(case.get("twin")))
         print("replay:", json.dumps(case), "->", crash or findings)
         rc = rc or (1 if (crash or findings) else 0)
     return rc
